@@ -361,6 +361,10 @@ type rpcChain struct {
 	SrcNew    bool   `json:"source_new_state_backend"`
 	DstNew    bool   `json:"new_state_backend"`
 	Blocks    int    `json:"blocks"`
+	// one more block at the end deploys contracts (same class, no storage: equal leaves) and writes the slots of
+	// one contract so that the contracts trie and that storage trie hold IDENTICAL subtrees under different
+	// edge paths; the requests then prove keys under different copies into one mapping
+	Twins bool `json:"twin_subtrees,omitempty"`
 }
 
 func (c *ctx) rpcSection(r *lib.RNG, out chan<- batch) {
@@ -371,7 +375,7 @@ func (c *ctx) rpcSection(r *lib.RNG, out chan<- batch) {
 		for _, newState := range []bool{false, true} {
 			// even chains never declare classes: the classes trie stays empty across the 0.14.0
 			// switch of the state commitment formula
-			ch := rpcChain{Seed: r.Uint64(), NoClasses: ci%2 == 0, SrcNew: ci%2 == 1, DstNew: newState, Blocks: blocks}
+			ch := rpcChain{Seed: r.Uint64(), NoClasses: ci%2 == 0, SrcNew: ci%2 == 1, DstNew: newState, Blocks: blocks, Twins: true}
 			wg.Add(1)
 			go func() {
 				defer wg.Done()
@@ -424,7 +428,137 @@ func (c *ctx) runRPCChain(ch rpcChain, out chan<- batch) {
 			}
 		}
 	}
+	if ch.Twins {
+		c.rpcTwinBlock(gr, g, ch, dst, hs, out)
+	}
 	c.rpcEnumerateStorageKeys(gr, g, ch, hs, out)
+}
+
+// forcedRPC: a request given by the caller instead of the random one of rpcQuery (always for `latest`).
+type forcedRPC struct {
+	classes, contracts []felt.Felt
+	storage            []rpcStorageKeysJSON
+}
+
+// rpcTwinBlock stores one more block whose state diff puts identical subtrees into the contracts trie (contracts
+// of one class without storage at prefix_i ++ suffix_j: equal leaves) and into the storage trie of one contract
+// (slots prefix_i ++ suffix_j holding a value that depends on j only), then asks every handler for EVERY ordered
+// pair (and some triples) of those addresses / slots in one request: the proofs of the keys of one mapping go
+// into one node set, and every key must verify against its root.
+func (c *ctx) rpcTwinBlock(gr *lib.RNG, g *lib.ChainGen, ch rpcChain, dst *blockchain.Blockchain, hs *rpcHandlers, out chan<- batch) {
+	res := c.res
+	st := g.HeadState()
+	d := &core.StateDiff{
+		StorageDiffs:      map[felt.Felt]map[felt.Felt]*felt.Felt{},
+		Nonces:            map[felt.Felt]*felt.Felt{},
+		DeployedContracts: map[felt.Felt]*felt.Felt{},
+		DeclaredV0Classes: []*felt.Felt{},
+		DeclaredV1Classes: map[felt.Felt]*felt.Felt{},
+		ReplacedClasses:   map[felt.Felt]*felt.Felt{},
+		MigratedClasses:   map[felt.SierraClassHash]felt.CasmClassHash{},
+	}
+	layout := func() (keys [][]felt.Felt, absent []felt.Felt) {
+		pl, sl := 2+gr.Intn(2), 1+gr.Intn(2)
+		lead := lib.Pick(gr, []int{0, 1, 3, 62, 64, 125, 190, 240, 251 - pl - sl})
+		leadBits, tail := randBits(gr, lead), randBits(gr, 251-lead-pl-sl)
+		prefixes := allBits(pl)
+		lib.Shuffle(gr, prefixes)
+		prefixes = prefixes[:3]
+		pattern := allBits(sl)
+		lib.Shuffle(gr, pattern)
+		if len(pattern) > 2 {
+			pattern = pattern[:3]
+		}
+		for _, p := range prefixes {
+			var row []felt.Felt
+			for _, sfx := range pattern {
+				row = append(row, bitsToFelt(leadBits+p+sfx+tail))
+			}
+			keys = append(keys, row)
+		}
+		if tl := 251 - lead - pl - sl; tl > 0 {
+			absent = append(absent, bitsToFelt(leadBits+prefixes[1]+pattern[0]+flipBit(tail, gr.Intn(tl))))
+		}
+		absent = append(absent, bitsToFelt(leadBits+flipBit(prefixes[0], pl-1)+pattern[0]+tail))
+		return keys, absent
+	}
+	class := g.ClassHash(0)
+	addrs, absentAddrs := layout()
+	for _, row := range addrs {
+		for _, a := range row {
+			if st.Deployed[a] || st.Contracts[a] != nil {
+				res.Hit("rpc:twins:skipped-address-in-use")
+				return
+			}
+			cl := class
+			d.DeployedContracts[a] = &cl
+		}
+	}
+	owner := bitsToFelt(randBits(gr, 251))
+	if st.Deployed[owner] || st.Contracts[owner] != nil || d.DeployedContracts[owner] != nil {
+		res.Hit("rpc:twins:skipped-address-in-use")
+		return
+	}
+	ocl := g.ClassHash(1)
+	d.DeployedContracts[owner] = &ocl
+	slots, absentSlots := layout()
+	d.StorageDiffs[owner] = map[felt.Felt]*felt.Felt{}
+	for _, row := range slots {
+		for j, k := range row {
+			d.StorageDiffs[owner][k] = lib.F(uint64(7 + j))
+		}
+	}
+	b, err := g.Next(&lib.BlockSpec{Version: g.Head().Block.ProtocolVersion, Diff: d})
+	if err != nil {
+		res.Fatalf("rpc: twin block: chain generator: %v", err)
+		return
+	}
+	if err := lib.StoreOn(dst, b); err != nil {
+		res.Fatalf("rpc: twin block: store: %v", err)
+		return
+	}
+	flat := func(rows [][]felt.Felt, extra []felt.Felt) []felt.Felt {
+		var o []felt.Felt
+		for j := range rows[0] { // the same relative key under every copy first
+			for _, row := range rows {
+				o = append(o, row[j])
+			}
+		}
+		o = append(o, extra...)
+		if len(o) > 7 {
+			o = append(o[:6:6], extra...)
+		}
+		return o
+	}
+	apool, spool := flat(addrs, absentAddrs), flat(slots, absentSlots)
+	n := 0
+	ask := func(as, ss []felt.Felt) {
+		version := rpcVersions[n%len(rpcVersions)]
+		n++
+		f := &forcedRPC{contracts: as}
+		if len(ss) > 0 {
+			f.storage = []rpcStorageKeysJSON{{Contract: "0x" + fhex(&owner), Keys: feltsHex(ss)}}
+		}
+		c.rpcQuery(gr, g, version, ch, hs, out, f)
+		res.Hit("rpc:twins:request-with-keys-under-identical-subtrees")
+	}
+	for i := range apool {
+		for j := range apool {
+			if i == j {
+				continue
+			}
+			var ss []felt.Felt
+			if i < len(spool) && j < len(spool) {
+				ss = []felt.Felt{spool[i], spool[j]}
+			}
+			ask([]felt.Felt{apool[i], apool[j]}, ss)
+		}
+	}
+	for i := 0; i < 12; i++ {
+		a, b2, d2 := gr.Intn(len(apool)), gr.Intn(len(apool)), gr.Intn(len(apool))
+		x, y, z := gr.Intn(len(spool)), gr.Intn(len(spool)), gr.Intn(len(spool))
+		ask([]felt.Felt{apool[a], apool[b2], apool[d2], owner}, []felt.Felt{spool[x], spool[y], spool[z]})
+	}
 }
 
 // rpcEnumerateStorageKeys: EVERY sequence of at most four contracts_storage_keys entries over three contracts
@@ -575,7 +709,7 @@ func (c *ctx) rpcEnumerateStorageKeys(r *lib.RNG, g *lib.ChainGen, chain rpcChai
 }
 
 func (c *ctx) rpcQuery(r *lib.RNG, g *lib.ChainGen, version string, chain rpcChain,
-	hs *rpcHandlers, out chan<- batch,
+	hs *rpcHandlers, out chan<- batch, forced ...*forcedRPC,
 ) {
 	newState, seed := chain.DstNew, chain.Seed
 	res := c.res
@@ -623,9 +757,12 @@ func (c *ctx) rpcQuery(r *lib.RNG, g *lib.ChainGen, version string, chain rpcCha
 		keys = append(keys, g.Slot(r.Intn(g.Opt.NSlots)), hexFelt(bitsToBig(randBits(r, 251)).Text(16)))
 		storage = append(storage, rpcStorageKeysJSON{Contract: "0x" + fhex(&a), Keys: feltsHex(keys)})
 	}
+	if len(forced) > 0 {
+		classes, contracts, storage = forced[0].classes, forced[0].contracts, forced[0].storage
+	}
 	req := rpcRequest{Version: version, NewState: newState, Block: head.Block.Number, Protocol: head.Block.ProtocolVersion,
 		Classes: feltsHex(classes), Contracts: feltsHex(contracts), Storage: storage, Chain: chain}
-	res.Case(fmt.Sprintf("rpc/%s/%v/%d/%d", version, newState, seed, head.Block.Number), true)
+	res.Case(fmt.Sprintf("rpc/%s/%v/%d/%d/%v/%v", version, newState, seed, head.Block.Number, req.Contracts, len(forced)), true)
 	res.Hit(fmt.Sprintf("rpc:%s:backend-new=%v", version, newState))
 	res.Hit("rpc:protocol-" + head.Block.ProtocolVersion)
 
@@ -633,7 +770,7 @@ func (c *ctx) rpcQuery(r *lib.RNG, g *lib.ChainGen, version string, chain rpcCha
 	// (the proofs are always those of the head state: served for another block they could not verify
 	// against that block's root)
 	ref := blockRef{Kind: "latest"}
-	if head.Block.Number > 0 {
+	if head.Block.Number > 0 && len(forced) == 0 {
 		switch r.Intn(12) {
 		case 0, 1:
 			ref = blockRef{Kind: "number", Number: head.Block.Number}
@@ -693,7 +830,7 @@ func (c *ctx) rpcQuery(r *lib.RNG, g *lib.ChainGen, version string, chain rpcCha
 		}
 	}()
 	// malformed storage key lists must be refused, not answered
-	if r.Chance(1, 10) {
+	if len(forced) == 0 && r.Chance(1, 10) {
 		bad := append([]rpcStorageKeysJSON{}, storage...)
 		if r.Bool() {
 			bad = append(bad, rpcStorageKeysJSON{Contract: "", Keys: []string{"0x1"}})
